@@ -74,7 +74,7 @@ var addCmd = &cobra.Command{
 			return errors.New("nothing specified, nothing added")
 		}
 		for _, arg := range args {
-			if _, err := os.Stat(arg); os.IsNotExist(err) {
+			if _, err := os.Stat(arg); err != nil { // not there (also when a parent is not a directory)
 				// If the file does not exist but is registered in the index, delete it from the index
 				// but not delete here, just check it
 				cleanedArg := filepath.Clean(arg)
@@ -95,7 +95,7 @@ var addCmd = &cobra.Command{
 			}
 
 			// If the file does not exist but is registered in the index, delete it from the index
-			if _, err := os.Stat(arg); os.IsNotExist(err) {
+			if _, err := os.Stat(arg); err != nil {
 				_, _, isEntryFound := client.Idx.GetEntry([]byte(cleanedArg))
 				if !isEntryFound {
 					return fmt.Errorf(`path "%s" did not match any files`, arg)
@@ -112,7 +112,7 @@ var addCmd = &cobra.Command{
 			}
 
 			// directory
-			if f, err := os.Stat(arg); !os.IsNotExist(err) && f.IsDir() {
+			if f, err := os.Stat(arg); err == nil && f.IsDir() {
 				// walk with the ignore list so that neither .goit nor ignored paths are staged
 				filePaths, err := file.GetFilePathsUnderDirectoryWithIgnore(cleanedArg, client.Idx, client.Ignore)
 				if err != nil {
